@@ -654,7 +654,8 @@ func decodeKeyNotFoundStream(s *Stream, start int64) (*structFieldSet, string, e
 				if !s.read() {
 					return nil, "", errors.ErrUnexpectedEndOfJSON("string", s.totalOffset())
 				}
-				buf, cursor, p = s.statForRetry()
+				// the byte that arrived at this position is escaped: it must not be dispatched again
+				buf, cursor, p = s.stat()
 			}
 		case nul:
 			s.cursor = cursor
